@@ -162,11 +162,18 @@ def run(tier, replay):
         tr_ok, tr_log = C.run_translator()
         coq_ok, coq_log = C.coq_make()
         if C.RTAG:
-            # coq_make copies the sources of the unchanged tree over the scratch copy: regenerate this tree's facts, rebuild
+            # a scratch tree has its own copy of the Coq development, into which coq_make copies the sources AND the
+            # compiled files of the unchanged tree: what was compiled against the unchanged tree's GenConn.v is stale here
             rc, out = C.sh(["sh", CONNFACTS, C.REPO, C.COQ], env=C.GOENV, timeout=600)
             tr_log += out
             tr_ok = tr_ok and rc == 0
-            C.sh(["make", "-k", "-j16"], cwd=C.COQ, timeout=3000)
+            for rel in ("ConnGen", "Properties/C08"):
+                for ext in (".vo", ".vos", ".vok", ".glob"):
+                    try:
+                        os.remove(os.path.join(C.COQ, rel + ext))
+                    except OSError:
+                        pass
+            C.sh(["make", "-k", "GenConn.vo", "ConnGen.vo"], cwd=C.COQ, timeout=3000)
         facts = gen_facts()
         h_ok, h_log, binp = C.build_harness("c08")
         nohooks = False
@@ -195,6 +202,13 @@ def run(tier, replay):
             tie_broken.append("coq/GenConn.v (regenerated) or coq/ConnGen.v does not compile")
         pinfo = C.property_file_info(PID)
         ora_ok, ora_log = build_oracle() if model_ok else (False, "model not built")
+        coqchk = "not run (quick tier)"
+        if thorough and pinfo["ok"]:
+            C.sh(["make", "Properties/C08.vo"], cwd=C.COQ, timeout=1800)
+            rc, out = C.sh(["coqchk", "-silent", "-o", "-Q", ".", "hagall", "hagall.Properties.C08"], cwd=C.COQ, timeout=3000)
+            coqchk = "ok, Axioms: <none>" if rc == 0 and "Axioms: <none>" in out else "FAILED: " + out[-600:]
+            if not coqchk.startswith("ok"):
+                tie_broken.append("coqchk does not accept hagall.Properties.C08: " + out[-300:].replace("\n", " | "))
     if not tr_ok:
         tie_broken.append("translator tools/connfacts failed on the current sources: " + tr_log[-300:].replace("\n", " | "))
     failing = []
@@ -233,7 +247,7 @@ def run(tier, replay):
         # ---------------------------------------------------------------- L2
         lp = os.path.join(d, "l2.json")
         reps = 5000 if thorough else 300
-        cmd = [binp, "l2", "-out", lp, "-burstreps", str(reps), "-maxviol", "8", "-deadline", "2s"]
+        cmd = [binp, "l2", "-out", lp, "-burstreps", str(reps), "-maxviol", "8", "-deadline", "2s", "-maxtotal", "400" if thorough else "10"]
         rc, out = C.sh(cmd, timeout=7200)
         if rc != 0 or not os.path.exists(lp):
             print("INTERNAL: L2 driver failed\n" + out[-3000:])
@@ -335,7 +349,7 @@ def run(tier, replay):
                              "l1_failure_signatures": (sweep or {}).get("failure_signatures", {}),
                              "l2_class_counts": l2.get("class_counts", {}), "l2_crashes": l2.get("crashes", []),
                              "model_lookups": [{"script": t, "observed": c, "model": list(oracle_res.get((t, c), ("-", 0, [])))} for (t, c) in pairs][:80]},
-            "facts": facts, "tie_broken": tie_broken, "known_findings_matched": sorted(known_lines),
+            "coqchk": coqchk, "facts": facts, "tie_broken": tie_broken, "known_findings_matched": sorted(known_lines),
             "level_note": "proof-partial: proved for all executions of the model: HandleDisconnect at most once; the main loop never blocks on its own disconnect() (and the exact bound + permanence for a blocking one); after a failure no stuck state, a decreasing measure for every non-select step, and the only terminal states are the clean ones; idle clauses. Exhibited by the runtime only: Go scheduler / select fairness, TCP, net/http recover, memory exhaustion.",
         }
         C.write_evidence(PID, tier, cov, ["handlers total (tied by the L1 sweep)", "no server shutdown during the connection", "clients of other sessions are not modelled (observed at L2: witness in another session)"],
